@@ -27,12 +27,61 @@ SET_FIELDS = {
     "group_by": ("_cache", "self@Cache", "res@Cache", "right_cache", "cache"),  # Cache.group_by (GroupBy/Query.group_by are lists)
 }
 
-# reviewed exceptions: one named site, one reason
-REVIEWED = {
-    ("tree.types", "lca_type", "list(common_ancestors)"):
-        "candidates are compared by best_signature_match which asserts a unique minimum; the chosen element "
-        "does not depend on the position (C13 checks the uniqueness itself)",
-}  # fmt: skip
+# an accepted idiom, recognised by its structure: a list made from a set whose only uses are (a) building the candidate list of
+# `best_signature_match(..)` and (b) being indexed by that call's result.  best_signature_match asserts a *unique* minimum, so
+# the element chosen does not depend on the position it has in the list (C13 checks the uniqueness itself).
+ARGMIN_CHOOSERS = {"best_signature_match"}
+
+
+def _argmin_selection(node, func) -> bool:
+    """`node` = the call list(<set>) / tuple(<set>); is its value only used to pick the unique best candidate?"""
+    holder = parent(node)
+    if isinstance(holder, ast.AnnAssign) and isinstance(holder.target, ast.Name):
+        name = holder.target.id
+    elif isinstance(holder, ast.Assign) and len(holder.targets) == 1 and isinstance(holder.targets[0], ast.Name):
+        name = holder.targets[0].id
+    else:
+        return False
+
+    def chooser(c):
+        return isinstance(c, ast.Call) and (dotted(c.func) or "").split(".")[-1] in ARGMIN_CHOOSERS
+
+    chooser_results = {
+        n.targets[0].id for n in ast.walk(func)
+        if isinstance(n, ast.Assign) and len(n.targets) == 1 and isinstance(n.targets[0], ast.Name) and chooser(n.value)
+    }  # fmt: skip
+    # the uses of *this* binding: loads after the assignment (which must not sit in a loop, where "after" means nothing)
+    q = parent(holder)
+    while q is not None and q is not func:
+        if isinstance(q, (ast.For, ast.While, ast.AsyncFor)):
+            return False
+        q = parent(q)
+    own = {id(x) for x in ast.walk(holder)}
+    end = getattr(holder, "end_lineno", holder.lineno)
+    uses = [n for n in ast.walk(func) if isinstance(n, ast.Name) and n.id == name and isinstance(n.ctx, ast.Load) and id(n) not in own and n.lineno > end]
+    if not uses:
+        return False
+    for u in uses:
+        p_ = parent(u)
+        # (b) indexed by the chooser's result
+        if isinstance(p_, ast.Subscript) and p_.value is u:
+            idx = p_.slice
+            if chooser(idx) or (isinstance(idx, ast.Name) and idx.id in chooser_results):
+                continue
+            return False
+        # (a) somewhere inside an argument of the chooser call
+        q = p_
+        inside = False
+        while q is not None and q is not func:
+            if chooser(q):
+                inside = True
+                break
+            q = parent(q)
+        if not inside:
+            return False
+    # the name must not be re-assigned from anything else
+    stores = [n for n in ast.walk(func) if isinstance(n, ast.Name) and n.id == name and isinstance(n.ctx, ast.Store) and n.lineno > end]
+    return not stores
 
 
 class SetFacts:
@@ -380,9 +429,8 @@ def run_rule(chk, rule_id: str, scope, only_funcs: set[str] | None = None, floor
         kind, node, it = site
         construct = f"iterate {norm(it)[:100]} via {kind}:{norm(node)[:120] if kind != 'for' else 'for ' + norm(node.target)}"
         if not ok:
-            rv = REVIEWED.get((short, qual_of(f), norm(node)))
-            if rv:
-                chk.ok(rule_id, mod, node, construct, "reviewed exception: " + rv)
+            if isinstance(node, ast.Call) and _argmin_selection(node, f):
+                chk.ok(rule_id, mod, node, construct, "accepted idiom: the list only feeds best_signature_match (unique minimum asserted) and is indexed by its result")
                 continue
         chk.ob(
             rule_id, mod, node, construct, ok,
